@@ -87,7 +87,7 @@ type SubT struct {
 	Prio    int    `json:"prio,omitempty"`  // priority (priority queues)
 	ID      string `json:"id,omitempty"`    // WithJobId / Item.ID ("" = none)
 	Batch   int    `json:"batch"`           // batch index, -1 for single jobs
-	Outcome int    `json:"outcome,omitempty"` // 0 ok, 1 error, 2 panic(string), 3 panic(error)
+	Outcome int    `json:"outcome,omitempty"` // 0 ok, 1 error, 2 panic(string), 3 panic(error), 4 panic(int), 5 panic(struct)
 	Delay   int    `json:"delay,omitempty"` // simulated run time in time units
 	Gated   bool   `json:"gated,omitempty"`
 	CloseInFn bool `json:"closeinfn,omitempty"` // the worker function calls Close() on its own job (must be refused: ErrJobProcessing)
@@ -279,6 +279,21 @@ func expectedPanicText(v int) string { return fmt.Sprintf("p<%d>", v) }
 
 type panicErr struct{ v int }
 
+type panicStruct struct {
+	N    int
+	Tags []string
+}
+
+// panicMatches: does error text e carry the panic of submission s? Panics with a
+// string or an error must show their text; for other values the property only
+// says the panic becomes the job's error: any non-nil error.
+func panicMatches(s *Sub, e string) bool {
+	if s.Outcome >= 4 {
+		return e != ""
+	}
+	return strings.Contains(e, expectedPanicText(s.N))
+}
+
 func (p panicErr) Error() string { return expectedPanicText(p.v) }
 
 // fnBody is the worker function shared by the three worker kinds.
@@ -312,6 +327,10 @@ func (wd *World) fnBody(j Job[int]) (int, error) {
 		panic(expectedPanicText(v))
 	case 3:
 		panic(panicErr{v})
+	case 4:
+		panic(1000000 + v) // neither a string, an error nor a Stringer
+	case 5:
+		panic(panicStruct{N: v, Tags: []string{"x"}})
 	}
 	return expectedValue(v), nil
 }
